@@ -51,7 +51,9 @@ def templates(draw, org, frame):
     elif kind == 'block':
         n = draw(st.integers(1, 40))
         op = draw(st.sampled_from([0xB0, 0xB8, 0xB1, 0xB9, 0xB2, 0xBA, 0xB3, 0xBB]))
-        code = [0x21, 0x00, 0x90, 0x11, 0x00, 0xA0, 0x01, n if op & 2 == 0 else 0xFE, 0 if op & 2 == 0 else n, 0xED, op] + draw(FILL)
+        # (block I/O: port B:FE, or on 128K B:FD - a paging write by OUTI/OTIR & co.)
+        lo = 0xFE if frame != 70908 else draw(st.sampled_from([0xFE, 0xFD, 0xFD]))
+        code = [0x21, 0x00, 0x90, 0x11, 0x00, 0xA0, 0x01, n if op & 2 == 0 else lo, 0 if op & 2 == 0 else n, 0xED, op] + draw(FILL)
     elif kind == 'prefix':
         code = draw(st.lists(st.sampled_from([0xDD, 0xFD]), min_size=2, max_size=8)) + draw(st.sampled_from([[0x21, 0x34, 0x12], [0x00], [0xCB, 0x05, 0x06], [0xE5]])) + draw(FILL)
     elif kind == 'out':
